@@ -183,12 +183,16 @@ func c02Worker(_ []string) int {
 		recs   = map[uint64]*lexRec{}
 		order  []uint64
 		tracew *bufio.Writer
+		shapes = map[string]bool{} // event shapes already written by this worker (the trace spec sees only the shape)
+		parses int
 	)
+	const maxEvents = 400 // a parse that logs more is not going to end: keep the prefix (it is rejected as it stands)
 	if dir := os.Getenv("VERIF_LEXTRACE"); dir != "" {
 		if f, err := os.Create(filepath.Join(dir, fmt.Sprintf("lex.%d.ndjson", os.Getpid()))); err == nil {
 			tracew = bufio.NewWriterSize(f, 1<<20)
 			defer f.Close()
 			defer tracew.Flush()
+			defer func() { json.NewEncoder(tracew).Encode(map[string]int{"count": parses}) }()
 			jet.VerifSetTracer(func(e jet.VerifEvent) {
 				if e.Rt != 0 || len(e.Args) == 0 || !(strings.HasPrefix(e.Ev, "lex.") || strings.HasPrefix(e.Ev, "parse.")) {
 					return
@@ -201,6 +205,9 @@ func c02Worker(_ []string) int {
 					r = &lexRec{P: []map[string]interface{}{}}
 					recs[id] = r
 					order = append(order, id)
+				}
+				if len(r.P) >= maxEvents {
+					return
 				}
 				switch e.Ev {
 				case "lex.close":
@@ -222,8 +229,19 @@ func c02Worker(_ []string) int {
 		tenc := json.NewEncoder(tracew)
 		for _, id := range order {
 			r := recs[id]
+			parses++
+			shape, _ := json.Marshal([]interface{}{r.P, r.Closed})
+			if shapes[string(shape)] {
+				continue
+			}
+			shapes[string(shape)] = true
 			r.Src, r.Cfg = rq.Src, rq.Cfg
 			tenc.Encode(r)
+		}
+		if parses >= 1000 {
+			// how many parses the written shapes stand for
+			tenc.Encode(map[string]int{"count": parses})
+			parses = 0
 		}
 		recs, order = map[uint64]*lexRec{}, nil
 		tracew.Flush()
